@@ -1,6 +1,8 @@
 import CppUModel.Base.Proto
 import CppUModel.Model.MockC
 import CppUModel.Spec.MockC
+import CppUModel.Model.MockCNodes
+import CppUModel.Model.MockCReporter
 /-!
 Driver for C19.
 
@@ -176,6 +178,13 @@ structure DState where
   /-- predictions for the c-run, per operation index -/
   pred  : List (String × List String) := []
   xend  : List String := []
+  /-- the reporter plumbing of the C layer (`Rep.stepC`, interpreted from the regenerated mockCalls / reporters /
+      terminators): which reporter is active in the selected scope, the crash flags, whether the test already failed -/
+  rep   : Rep.RWorld := {}
+  /-- operations the C++ run left by its exception, oldest first: (op index, lines if the failure went through the mock
+      failure reporter — from the reporter model of the C side —, lines if it was an assertion macro inside the mock
+      core (`STRCMP_EQUAL` in MockNamedValue's getters: the test shell's own terminator, the same for both interfaces)) -/
+  fails : List (String × List String × List String) := []
 
 /-- the static actual call is the last call of the selected scope (for a call through the actual-call table an
     ignored call made on the selected scope counts too: both `has` answer "no") -/
@@ -219,7 +228,20 @@ def modelStep (d : DState) (op : List String) (obs : List (List String)) : DStat
     let lines := obs.filterMap fun l => match l with
       | "xo" :: rest => some ("co " ++ " ".intercalate rest)
       | _ => none
-    ({ d with xend := lines }, [])
+    -- which of the failures were reported through the mock failure reporter: the k-th operation left by an exception
+    -- is the k-th failure of the verdict text
+    let text := match obs.find? (fun l => l.take 2 == ["xo", "verdict"]) with
+      | some [_, _, _, h] => strOfHex h
+      | _ => ""
+    let blocks := (text.splitOn "Failure in TEST(").drop 1
+    let viaReporter := blocks.map (fun b => (b.splitOn "Mock Failure:").length > 1 || (b.splitOn "MockFailure:").length > 1)
+    let chosen := (d.fails.zip (viaReporter ++ List.replicate d.fails.length true)).map
+      (fun (f, r) => (f.1, if r then f.2.1 else f.2.2))
+    let pred := d.pred.map (fun (idx, p) =>
+      match chosen.find? (·.1 = idx) with
+      | some (_, ls) => (idx, p.flatMap (fun l => if l = "@FAIL@" then ls else [l]))
+      | none => (idx, p.filter (· ≠ "@FAIL@")))
+    ({ d with xend := lines, pred := pred }, [])
   | ["c", "end"] => (d, d.xend)
   | ["x", _, "T"] =>
     -- teardown starts: the test drops its chain objects; which call is a scope's last one is not known any more
@@ -241,14 +263,34 @@ def modelStep (d : DState) (op : List String) (obs : List (List String)) : DStat
         let callLine :=
           if misaligned then "call MISALIGNED " ++ "; ".intercalate st1.m.calls
           else renderX fw (Req.meaning tbl fw (stmtArgs stmt))
+        -- output bytes and "the reporter crashed the test" are functions of the C++ world: taken from the x-run, in order
         let outs := obs.filterMap fun l => match l with
           | "xo" :: "out" :: rest => some ("co out " ++ " ".intercalate rest)
           | _ => none
+        -- the reporter model of the C side: scope selections and crashOnFailure are replayed; a failure at this operation
+        -- (the C++ run left it by its exception) goes to the reporter the C layer made active in the selected scope
+        let rop : Option Rep.ROp := match stmt with
+          | .mockC => some .mockGlobal
+          | .mockScope sc => some (.mockScope sc)
+          | .call .sup "crashOnFailure" [v] => some (.crashOnFailure (match neZero v with | .bool b => b | _ => false))
+          | _ => none
+        let rep1 := match rop with | some o => Rep.stepC d.rep o | none => d.rep
+        let failedHere := obs.any (· == ["xo", "left", "exception"])
+        let rep2' := if failedHere then Rep.stepC rep1 .fail else rep1
+        let rep2 := if failedHere then { rep2' with hasFailed := true } else rep2'
+        let newEvs := rep2.events.drop rep1.events.length
+        let failLines := newEvs.filterMap fun e => match e with
+          | .crash => some "co crash"
+          | .exit .exception => some "co left exception"
+          | .exit .unknown => some "co left UNKNOWN"
+          | .exit .longjmp => none
         let res := r1.2
         -- a value-returning forwarder whose C++ call never returned does not return either
         let p := if misaligned then ["co UNPREDICTABLE misaligned"]
-                 else (if st1.m.dry then [] else renderCRes (kindFromX obs) res) ++ outs
-        ({ d with st := st1, pred := (idx, p) :: d.pred }, [callLine])
+                 else (if st1.m.dry || failedHere then [] else renderCRes (kindFromX obs) res) ++
+                      (if failedHere then ["@FAIL@"] else []) ++ outs
+        ({ d with st := st1, pred := (idx, p) :: d.pred, rep := rep2,
+                  fails := if failedHere then d.fails ++ [(idx, failLines, ["co left exception"])] else d.fails }, [callLine])
   | "c" :: idx :: _ =>
     match d.pred.find? (·.1 = idx) with
     | some (_, p) => (d, p)
@@ -286,6 +328,7 @@ def sameObs (c x : List String) : Bool :=
     let t := strOfHex ty
     tag == tagOfType t && (if t = "bool" then truth p == truth q else p == q)
   | "co" :: "out" :: r, "xo" :: "out" :: r' => r == r'
+  | ["co", "crash"], ["xo", "crash"] => true
   | _, _ => false
 
 def isResult (l : List String) : Bool :=
@@ -293,6 +336,7 @@ def isResult (l : List String) : Bool :=
   | _ :: "ret" :: _ => true
   | _ :: "val" :: _ => true
   | _ :: "out" :: _ => true
+  | [_, "crash"] => true
   | _ => false
 
 def sameObsList : List (List String) → List (List String) → Bool
@@ -310,6 +354,8 @@ structure Shadow where
   /-- removeAllComparatorsAndCopiers was called on a named scope while adaptor nodes existed: the C layer deletes
       every node but only that scope's repository forgets them -/
   dangling : Bool := false
+  /-- the operations that matter for the adaptor nodes, for `Nodes.runC` (model of comparatorList_ / copierList_) -/
+  aops : List Nodes.AOp := []
 
 def getterFields : List String :=
   ["returnValue", "boolReturnValue", "intReturnValue", "unsignedIntReturnValue", "longIntReturnValue",
@@ -321,7 +367,26 @@ def orDefaultFields : List String :=
    "returnStringValueOrDefault", "returnDoubleValueOrDefault", "returnPointerValueOrDefault",
    "returnConstPointerValueOrDefault", "returnFunctionPointerValueOrDefault"]
 
-def shadowStep (sh : Shadow) (i : Nat) (words : List String) (obs : List (List String)) : Shadow :=
+def aopOf (words : List String) : Option Nodes.AOp :=
+  match words with
+  | ["M0"] => some (.scope "")
+  | ["M", s] => some (.scope (if s = "-" then "" else s))
+  | ["S", "installComparator", _] => some .installComparator
+  | ["S", "installCopier", _] => some .installCopier
+  | "E" :: "withParameterOfType" :: _ => some .expectTyped
+  | "E" :: "withOutputParameterOfTypeReturning" :: _ => some .expectTyped
+  | ["S", "clear"] => some .clear
+  | ["S", "removeAllComparatorsAndCopiers"] => some .removeAll
+  | _ => none
+
+/-- an expectation points to an adaptor node the C layer has deleted (model `Nodes.runC` on the operations so far) -/
+def heldDangling (sh : Shadow) : Bool :=
+  let w := Nodes.runC {} sh.aops
+  w.refs.any (fun r => match r.1 with
+    | .exp _ => !(w.nodes.live.contains r.2)
+    | .repo _ => false)
+
+def shadowStep0 (sh : Shadow) (i : Nat) (words : List String) (obs : List (List String)) : Shadow :=
   match words with
   | ["T"] => { sh with act := none, last := [] }
   | ["M0"] => { sh with cur := some "-" }
@@ -347,6 +412,18 @@ def shadowStep (sh : Shadow) (i : Nat) (words : List String) (obs : List (List S
       { sh with last := if s = "-" then [] else sh.last.filter (·.1 ≠ s), act := if dead then none else sh.act }
     | none => sh
   | _ => sh
+
+def shadowStep (sh : Shadow) (i : Nat) (words : List String) (obs : List (List String)) : Shadow :=
+  let sh' := shadowStep0 sh i words obs
+  match aopOf words with
+  | some a => { sh' with aops := sh'.aops ++ [a] }
+  | none => sh'
+
+/-- the finding a crash of the C run belongs to, if any: adaptor nodes deleted while still referenced -/
+def crashFinding (sh : Shadow) : Option String :=
+  if sh.dangling then some "removeAll-on-scope-frees-adaptors-of-other-scopes"
+  else if heldDangling sh then some "removeAll-frees-adaptor-still-held-by-expectation"
+  else none
 
 /-- the finding a divergence at this operation belongs to, if any -/
 def findingOf (sh : Shadow) (words : List String) : Option String :=
@@ -398,15 +475,22 @@ def specGo (sh : Shadow) : List (Nat × List String × List (List String)) → L
   | [], [], xr, cr =>
     match xr.fin, cr.fin with
     | some xf, some cf =>
-      let strip := fun (l : List (List String)) => l.map (·.drop 1)
-      if strip xf == strip cf then none
-      else some s!"end of scenario: C run {describeObs cf} / C++ run {describeObs xf}"
+      -- `leaked` (allocations still alive after the run) is not part of the property: model correspondence only
+      let strip := fun (l : List (List String)) => (l.map (·.drop 1)).filter (fun w => w.head? != some "leaked")
+      -- both runs passed: the default runner's leak check gives the same verdict only if the two runs leave the same
+      -- number of allocations alive (the C layer owns the adaptor nodes; the C++ test owns its comparators)
+      let leakOf := fun (l : List (List String)) => (l.find? (fun w => (w.drop 1).head? == some "leaked")).map (·.drop 2)
+      if strip xf != strip cf then some s!"end of scenario: C run {describeObs cf} / C++ run {describeObs xf}"
+      else match leakOf xf, leakOf cf with
+        | some a, some b =>
+          if a == b then none
+          else some s!"end of scenario (both runs pass): allocations still alive after the run: C {b} / C++ {a} — with the runner's leak check only one of the two tests fails"
+        | _, _ => none
     | _, none =>
-      some (label (if sh.dangling then some "removeAll-on-scope-frees-adaptors-of-other-scopes" else none)
-              "the C run did not finish (crash)")
+      some (label (crashFinding sh) "the C run did not finish (crash)")
     | none, _ => some "the C++ run did not finish (crash)"
   | (i, w, xo) :: xs, (j, w', co) :: cs, xr, cr =>
-    let f := if cr.fin.isNone && cs.isEmpty && sh.dangling then some "removeAll-on-scope-frees-adaptors-of-other-scopes"
+    let f := if cr.fin.isNone && cs.isEmpty && (crashFinding sh).isSome then crashFinding sh
              else findingOf sh w
     let opText := " ".intercalate w
     if i != j || w != w' then some s!"op#{i}: the two runs executed different operations ({opText} / {" ".intercalate w'})"
@@ -431,7 +515,8 @@ def specGo (sh : Shadow) : List (Nat × List String × List (List String)) → L
   | (i, w, _) :: _, [], _, cr =>
     match cr.fin with
     | some _ => some (label (findingOf sh w) s!"op#{i} {" ".intercalate w}: executed by the C++ run only")
-    | none => some (label (findingOf sh w) s!"op#{i} {" ".intercalate w}: the C run did not finish (crash)")
+    | none => some (label (if (crashFinding sh).isSome then crashFinding sh else findingOf sh w)
+                      s!"op#{i} {" ".intercalate w}: the C run did not finish (crash)")
   | [], (j, w, _) :: _, _, _ => some (label (findingOf sh w) s!"op#{j} {" ".intercalate w}: executed by the C run only")
 
 /-- the statement of an operation, arguments left as tokens (the class `Aligned` does not look at values) -/
